@@ -7,6 +7,7 @@ CHECKS="${@:-$P}"
 D=/verif/seeded/$P-$M
 mkdir -p $D
 cp $OUT/$M/patch.diff $D/patch.diff; cp $OUT/$M/demo.rs $D/demo.rs; cp $OUT/$M/README.md $D/README.agent.md 2>/dev/null
+[ -e $WT/.git ] || { rm -rf $WT; git -C /repo worktree prune; git -C /repo worktree add -q --detach $WT HEAD; }
 cd $WT && git checkout -q -- . && git clean -fdq -e target
 # 1. baseline: demo passes without the patch
 mkdir -p $WT/memcrs/tests; cp $D/demo.rs $WT/memcrs/tests/$DEMO.rs
